@@ -41,7 +41,8 @@ Definition of_list (l : list cell) : store := fun a => nth_error l a.
 Inductive err :=
 | MutateWhileIter        (* ValueError::MutationDuringIteration *)
 | IndexOutOfBound | NotFound | KeyNotFound | EmptyPop
-| WrongKind | NotIterable | Failed (* fail() *) | ControlOutsideLoop | Internal.
+| WrongKind | NotIterable | Failed (* fail() *) | ControlOutsideLoop | Internal
+| TypeMismatch.          (* InstrReturnCheckType: the returned value does not have the declared return type *)
 
 Inductive res := Ok | Err (e : err).
 
